@@ -199,6 +199,11 @@ encode_stuffing			(uint8_t *		p,
  *   the offending vbi_sliced structure.
  * @param s_left The number of vbi_sliced structures in the @a sliced
  *   array.
+ * @param last_line_p @a *last_line_p must contain the number of the
+ *   last line of this frame which has already been encoded (e.g. a
+ *   raw VBI line), or zero if none. The function stores the number
+ *   of the last line it encoded here. Line number zero (undefined)
+ *   does not count.
  * @param service_mask Only data services in this set will be
  *   encoded. Other data services in the @a *sliced array will be
  *   discarded without further checks. Create a set by ORing
@@ -244,6 +249,7 @@ insert_sliced_data_units	(uint8_t **		packet,
 				 unsigned int *		last_du_size,
 				 const vbi_sliced **	sliced,
 				 unsigned int		s_left,
+				 unsigned int *		last_line_p,
 				 vbi_service_set	service_mask,
 				 vbi_bool		fixed_length)
 {
@@ -255,7 +261,7 @@ insert_sliced_data_units	(uint8_t **		packet,
 	p = *packet;
 	s = *sliced;
 
-	last_line = 0;
+	last_line = *last_line_p;
 	*last_du_size = 0;
 
 	for (; s_left > 0; ++s, --s_left) {
@@ -510,6 +516,7 @@ insert_sliced_data_units	(uint8_t **		packet,
 
 	*packet = p;
 	*sliced = s;
+	*last_line_p = last_line;
 
 	return 0; /* success */
 }
@@ -609,6 +616,7 @@ vbi_dvb_multiplex_sliced	(uint8_t **		packet,
 	unsigned int p_left;
 	unsigned int s_left;
 	unsigned int last_du_size;
+	unsigned int last_line;
 	vbi_bool fixed_length;
 	int err;
 
@@ -638,9 +646,12 @@ vbi_dvb_multiplex_sliced	(uint8_t **		packet,
 		return FALSE;
 	}
 
+	last_line = 0;
+
 	err = insert_sliced_data_units (packet, p_left,
 					&last_du_size,
 					sliced, s_left,
+					&last_line,
 					service_mask,
 					fixed_length);
 
@@ -1414,6 +1425,7 @@ generate_pes_packet		(vbi_dvb_mux *		mx,
 	const uint8_t *samples_end;
 	unsigned int p_left;
 	unsigned int last_line;
+	unsigned int last_encoded_line;
 	unsigned int last_du_size;
 	unsigned int du_size;
 	unsigned int packet_length;
@@ -1454,6 +1466,7 @@ generate_pes_packet		(vbi_dvb_mux *		mx,
 	s_begin = s;
 
 	last_line = 0;
+	last_encoded_line = 0;
 	last_du_size = 0;
 
 	for (;;) {
@@ -1486,6 +1499,7 @@ generate_pes_packet		(vbi_dvb_mux *		mx,
 						&du_size,
 						&s_begin,
 						s - s_begin,
+						&last_encoded_line,
 						service_mask,
 						fixed_length);
 		if (unlikely (0 != err)) {
@@ -1548,6 +1562,10 @@ generate_pes_packet		(vbi_dvb_mux *		mx,
 
 		if (du_size > 0)
 			last_du_size = du_size;
+
+		/* An undefined line (line number 0) following this one
+		   must be encoded with the same field_parity. */
+		last_encoded_line = s->line;
 
 		mx->raw_samples_left = samples_end - samples;
 		if (mx->raw_samples_left > 0) {
